@@ -38,6 +38,11 @@ CHECKS = {
         text="A peer writes NUL-terminated frames followed by raw payload, cut so that payload shares a segment with the preceding frame; the consumer mixes ReadBytes(0) and Read of 1..8192 bytes in generated order, client side through Upgrade's object and service side through Call.Conn. Oracle: concatenation of everything returned = the exact prefix of the stream; a satisfiable read never stays blocked at quiescence.",
         technique=DST + "adversarial segmentation / coalescing / short reads of the simulated transport, byte-exact stream oracle",
         ref="DESIGN.md §4 C18"),
+    "C19": dict(
+        text="Simulated leg: histories of Bind / Bind+DoListen / Listen / Shutdown on one service object with address strings from a grammar (tcp and abstract unix forms, missing / empty / foreign protocol, empty unix path, ';parameter' tails, random strings) over the simulated socket namespace; oracle: outcome class per string from the statement (refused / bound to exactly (network, address-before-';')), no panic in any task, a refused or failed bind is followed by a working bind, a probe client reaches the service at the parsed endpoint, listeners closed after Shutdown. Filesystem socket paths and the client dialler cannot be put behind the simulator without replacing the lines under test; see level_note.",
+        technique=DST + "seeded address-string histories over the simulated socket namespace, outcome-class model",
+        note="Trusted: simulated namespace (EADDRINUSE / ECONNREFUSED / unknown-network behaviour of net.Listen), testing/synctest. Not covered by this leg: os.Remove of stale sockets, SetUnlinkOnClose, the *net.UnixListener assertion and NewConnection's net.Dialer (real-kernel objects without a seam).",
+        ref="DESIGN.md §4 C19"),
 }
 
 NA = {
@@ -49,7 +54,7 @@ NA = {
     "C20": "pure function of process-global OS state (environment, pid, inherited fd table) with no seam; a finite configuration product to enumerate in subprocesses, not simulation (DESIGN.md §5)",
 }
 
-PENDING = {'C02': 'simulation-decidable (DESIGN.md §4) but its check is not built yet at this commit; not claimed until it is', 'C03': 'simulation-decidable (DESIGN.md §4) but its check is not built yet at this commit; not claimed until it is', 'C11': 'simulation-decidable (DESIGN.md §4) but its check is not built yet at this commit; not claimed until it is', 'C12': 'simulation-decidable (DESIGN.md §4) but its check is not built yet at this commit; not claimed until it is', 'C13': 'simulation-decidable (DESIGN.md §4) but its check is not built yet at this commit; not claimed until it is', 'C19': 'simulation-decidable (DESIGN.md §4) but its check is not built yet at this commit; not claimed until it is'}
+PENDING = {'C02': 'simulation-decidable (DESIGN.md §4) but its check is not built yet at this commit; not claimed until it is', 'C03': 'simulation-decidable (DESIGN.md §4) but its check is not built yet at this commit; not claimed until it is', 'C11': 'simulation-decidable (DESIGN.md §4) but its check is not built yet at this commit; not claimed until it is', 'C12': 'simulation-decidable (DESIGN.md §4) but its check is not built yet at this commit; not claimed until it is', 'C13': 'simulation-decidable (DESIGN.md §4) but its check is not built yet at this commit; not claimed until it is'}
 
 def main():
     checks = []
